@@ -802,6 +802,9 @@ pub enum GenKind {
     Full { len: usize, v: Val },
     /// `Vec1::empty()`
     Empty,
+    /// `collect_vec1_opt` of a stream whose i-th item is `None` where `mask[i]` (element types
+    /// String, f32, f64: the result must hold the element type's own null there)
+    OptCollect { mask: Vec<bool> },
 }
 
 /// element type of a generator scenario (richer than `Ty`: the generators are generic over Number)
@@ -816,6 +819,8 @@ pub enum GenTy {
     OptI32,
     /// drop-tracked items (only `full` / `empty`)
     Trk,
+    /// `String` (only the optional collector: its null is the string "None")
+    Str,
 }
 
 impl GenTy {
@@ -829,6 +834,7 @@ impl GenTy {
             GenTy::OptF64 => "opt_f64",
             GenTy::OptI32 => "opt_i32",
             GenTy::Trk => "tracked",
+            GenTy::Str => "string",
         }
     }
     pub fn parse(s: &str) -> Result<GenTy, String> {
@@ -841,6 +847,7 @@ impl GenTy {
             "opt_f64" => GenTy::OptF64,
             "opt_i32" => GenTy::OptI32,
             "tracked" => GenTy::Trk,
+            "string" => GenTy::Str,
             _ => return Err(format!("bad gen ty {s}")),
         })
     }
@@ -918,6 +925,10 @@ impl Program {
                         o.push(("v", v.to_j()));
                     },
                     GenKind::Empty => o.push(("gen", J::s("empty"))),
+                    GenKind::OptCollect { mask } => {
+                        o.push(("gen", J::s("opt_collect")));
+                        o.push(("mask", J::Arr(mask.iter().map(|b| J::Bool(*b)).collect())));
+                    },
                 }
                 o.push(("out", J::s(g.out.name())));
                 J::obj(o)
@@ -972,6 +983,9 @@ impl Program {
                         v: Val::from_j(j.req("v")?)?,
                     },
                     "empty" => GenKind::Empty,
+                    "opt_collect" => GenKind::OptCollect {
+                        mask: j.req("mask")?.as_arr()?.iter().map(|b| b.as_bool()).collect::<Result<_, _>>()?,
+                    },
                     _ => return Err(format!("bad generator {g}")),
                 };
                 Ok(Program::Gen(Gen {
